@@ -41,6 +41,13 @@ CLAIMED = {
             "pixel) with b the generator's next nx draws; Fried: adding a constant shifts the row by it; the same for a second instance built after "
             "one with another r0. NOT claimed: stationarity as such (standard consequence for Gaussian vectors), Cholesky failure, float32 cast",
             "phase_covariance is a cut-point; Cholesky inverse = adjugate*dinv; SVD by its factorisation contract."),
+    "C05": ("3 C05", "one inductive step from an arbitrary (symbolic) screen state, repeated 2 (quick) / 3 (thorough) times, for both variants and requested "
+            "sizes whose internal Fried size differs (2,3,4,6 quick; up to 10 thorough): exposed screen stays N x N, rows 1.. are the previous exposed "
+            "screen shifted by one, row 0 is A Z + B b, add_row() returns the exposed screen, exactly nx draws are consumed, nothing else changes; "
+            "reading .scrn / repr() changes no attribute, no pixel and not the stream; find_allowed_size = least 2^n+1 >= nx for a symbolic integer "
+            "nx <= 300 quick / 4096 thorough (own explorer, all paths) and by CrossHair; the theoretical covariance is a fixed point of the vK "
+            "recursion (C04 identities). NOT claimed: finiteness of values, stability and uniqueness of the stationary covariance (spectral radius)",
+            "initial screen and covariance function are cut-points; A is an opaque matrix for the shift/shape obligations."),
     "C09": ("4 C09", "ft/ift/ft2/ift2 and the real variants, as exported by the module and by the package, are inverse "
             "pairs, linear, satisfy Parseval, equal the centred DFT (origin at the centre sample) and obey the shift "
             "theorem for every complex input and every delta>0 at each listed size (1-D N<=5 quick / <=8 thorough, "
